@@ -92,14 +92,18 @@ def case_pwl_fn(**p):
   kin_min, kin_max = 0.0, 2.0
   kw = dict(units=units, keypoint_input_min=kin_min, keypoint_input_max=kin_max, keypoint_output_min=p.get('omin', 0.0),
             keypoint_output_max=p.get('omax', 1.0), monotonicity=p['mono'], clamp_min=p.get('clamp_min', False),
-            clamp_max=p.get('clamp_max', False), is_cyclic=p.get('cyclic', False))
-  osize = nk - int(kw['clamp_min']) - int(kw['clamp_max']) - int(kw['is_cyclic'])
+            clamp_max=p.get('clamp_max', False), is_cyclic=p.get('cyclic', False), missing_input_value=p.get('missing_input'))
+  if p.get('imin') is not None:
+    kin_min, kin_max = p['imin'], p['imax']
+    kw.update(keypoint_input_min=kin_min, keypoint_input_max=kin_max)
+  osize = nk - int(kw['clamp_min']) - int(kw['clamp_max']) - int(kw['is_cyclic']) + int(p.get('missing_input') is not None)
   cols = units if p.get('per_unit_input') else 1
   tf_fn = Traced(lambda x, ki, ko: cp.pwl_calibration_fn(x, ki, ko, return_derived_parameters=True, **kw),
                  [tf.TensorSpec([1, cols], tf.float32), tf.TensorSpec([1, units, nk - 2], tf.float32), tf.TensorSpec([1, units, osize], tf.float32)],
                  name='pwl_calibration_fn')
   kps = list(np.linspace(kin_min, kin_max, nk))
-  layer = PL.PWLCalibration(input_keypoints=kps, units=units, input_keypoints_type='learned_interior', is_cyclic=kw['is_cyclic'])
+  layer = PL.PWLCalibration(input_keypoints=kps, units=units, input_keypoints_type='learned_interior', is_cyclic=kw['is_cyclic'],
+                            impute_missing=p.get('missing_input') is not None, missing_input_value=p.get('missing_input'))
   layer.build(tf.TensorShape([None, cols]))
   tl = Traced(lambda x: layer(x), [tf.TensorSpec([1, cols], tf.float32)], name='PWLCalibration.call')
   done, mism = tf_fn.validate(np.random.default_rng(0), n=1, gen=lambda r, i, s, t: r.integers(-4, 12, size=s) / 4.0)
@@ -118,11 +122,21 @@ def case_pwl_fn(**p):
   for u in range(units):
     for i in range(kern.shape[0]):
       kern[i, u] = kouts[0, u, i]
-  (out_l,) = tl.sym_run(x, var_values={layer.interpolation_logits.ref(): logits, layer.kernel.ref(): kern})
+  vvl = {layer.interpolation_logits.ref(): logits, layer.kernel.ref(): kern}
+  assume = []
+  if p.get('missing_input') is not None:
+    # the layer's learned missing output := the value the function derives from the last output parameter
+    omin_, omax_ = kw['keypoint_output_min'], kw['keypoint_output_max']
+    tm = Traced(lambda t: omin_ + tf.sigmoid(t) * (omax_ - omin_), [tf.TensorSpec([1, units], tf.float32)], name='derived-missing-output')
+    (mo,) = tm.sym_run(ko[:, :, -1])
+    vvl[layer.missing_output.ref()] = mo
+  (out_l,) = tl.sym_run(x, var_values=vvl)
   case.meta.update(validation_points=done, validation_mismatch=mism, ops=tf_fn.ops_seen, stubs=sym.ctx().stubs)
   pairs = list(zip(out_f.reshape(-1), out_l.reshape(-1)))
+  flat = lambda outs: np.asarray(outs[0]).reshape(-1)
   case.identity('pwl_calibration_fn-equals-layer', pairs, witness=dict(x=x, ki=ki, ko=ko), timeout=p.get('timeout', 120),
-                sig=dict(query='pwl-fn'), replay=None, required=p.get('required', True))
+                sig=dict(query='pwl-fn'), required=p.get('required', True),
+                inline_replay=lambda m: core.compare_tf(m, [(tf_fn, [x, ki, ko], {}, flat), (tl, [x], vvl, flat)]))
   # derived keypoint deltas equal the layer's lengths
   kin = Traced(lambda: layer.keypoints_inputs(), [], name='keypoints_inputs').sym_run(var_values={layer.interpolation_logits.ref(): logits})[0]
   pairs = []
@@ -132,7 +146,8 @@ def case_pwl_fn(**p):
       pairs.append((kin[i, u], acc))
       acc = sym.s_add(acc, deltas[0, u, i])
     pairs.append((kin[nk - 1, u], acc))
-  case.identity('derived-keypoints-equal-layer-keypoints', pairs, witness=dict(ki=ki), timeout=60, sig=dict(query='pwl-fn-kp'), replay=None)
+  case.identity('derived-keypoints-equal-layer-keypoints', pairs, witness=dict(ki=ki), timeout=60, sig=dict(query='pwl-fn-kp'), replay=None,
+                required=False)
   return case
 
 
@@ -175,8 +190,10 @@ def case_cdf_fn(**p):
   wit = dict(x=x, k=kern)
   if sc is not None:
     wit['s'] = sc
-  case.identity('cdf_fn-equals-CDF-layer', pairs, witness=wit, timeout=p.get('timeout', 120), sig=dict(query='cdf-fn'), replay=None,
-                required=p.get('required', True))
+  flat = lambda outs: np.asarray(outs[0]).reshape(-1)
+  case.identity('cdf_fn-equals-CDF-layer', pairs, witness=wit, timeout=p.get('timeout', 120), sig=dict(query='cdf-fn'),
+                required=p.get('required', True),
+                inline_replay=lambda m: core.compare_tf(m, [(tl, [x], vv, flat), (tf_fn, [x, loc, scb], {}, flat)]))
   return case
 
 
@@ -219,7 +236,16 @@ def case_parallel(**p):
       (o1,) = ts.sym_run(x[:, i:i + 1], var_values=vv)
       pairs.append((op[0, i], o1[0, 0]))
     case.meta.update(ops=tp.ops_seen)
-    case.identity('parallel-combination-equals-columnwise[cat=%s]' % cv, pairs, witness=wit, timeout=60, sig=dict(query='parallel'), replay=None)
+    def rp(m, args=args, vv=vv, x=x):
+      sides = [(tp, args, vv, lambda outs: np.asarray(outs[0]).reshape(-1))]
+      cols = []
+      for i, ts in enumerate(singles):
+        cols.append(ts.tf_run(core.model_np(m, x[:, i:i + 1]), var_values={k: core.model_np(m, v) for k, v in vv.items()})[0].reshape(-1)[0])
+      a_ = np.asarray(tp.tf_run(*[core.model_np(m, t) for t in args], var_values={k: core.model_np(m, v) for k, v in vv.items()})[0]).reshape(-1)
+      d_ = float(np.max(np.abs(a_ - np.asarray(cols))))
+      return dict(reproduced=bool(d_ > 1e-4 * max(1.0, float(np.max(np.abs(a_))))), detail=dict(combined=a_.tolist(), columnwise=[float(c) for c in cols]))
+    case.identity('parallel-combination-equals-columnwise[cat=%s]' % cv, pairs, witness=wit, timeout=60, sig=dict(query='parallel'),
+                  inline_replay=rp)
   return case
 
 
@@ -267,7 +293,18 @@ def case_aggregation(**p):
       acc = sym.s_add(acc, om[off + i, 0])
     off += ln
     pairs.append((np.asarray(oa, dtype=object).reshape(-1)[r_], sym.s_mul(acc, Fraction(1, ln))))
-  case.identity('aggregation-equals-per-example-mean', pairs, witness=dict(wit, fa=fa, fb=fb), timeout=120, sig=dict(query='aggregation'), replay=None)
+  def rp(m):
+    vvn = {k: core.model_np(m, v) for k, v in vv.items()}
+    a_ = np.asarray(ta.tf_run(core.model_np(m, fa), core.model_np(m, fb), var_values=vvn)[0]).reshape(-1)
+    mo = np.asarray(tm.tf_run(core.model_np(m, fa).reshape(total, 1), core.model_np(m, fb).reshape(total, 1), var_values=vvn)[0]).reshape(-1)
+    ref, off = [], 0
+    for ln in lens:
+      ref.append(float(np.mean(mo[off:off + ln])))
+      off += ln
+    d_ = float(np.max(np.abs(a_ - np.asarray(ref))))
+    return dict(reproduced=bool(d_ > 1e-4 * max(1.0, float(np.max(np.abs(a_))))), detail=dict(aggregation=a_.tolist(), per_example_mean=ref))
+  case.identity('aggregation-equals-per-example-mean', pairs, witness=dict(wit, fa=fa, fb=fb), timeout=120, sig=dict(query='aggregation'),
+                inline_replay=rp)
   return case
 
 
@@ -385,6 +422,8 @@ def cases(tier, seed):
   add('case_pwl_fn', nk=4, units=1, mono='increasing', clamp_min=True, clamp_max=True)
   add('case_pwl_fn', nk=3, units=2, mono='increasing', clamp_min=True, omin=-1.0, omax=2.0)
   add('case_pwl_fn', nk=4, units=1, mono='none', cyclic=True)
+  add('case_pwl_fn', nk=3, units=2, mono='none', missing_input=-1.0, imin=1.0, imax=4.0, omin=-2.0, omax=3.0, per_unit_input=True)
+  add('case_pwl_fn', nk=3, units=1, mono='increasing', missing_input=0.0, omin=0.5, omax=2.0)
   for act in ('relu6', 'sigmoid'):
     for red in ('mean', 'none'):
       add('case_cdf_fn', dim=2, nk=2, units=2, activation=act, reduction=red)
